@@ -399,8 +399,27 @@ def run_c_find():
 
 
 def run_commitment():
-    for which, outcome in itertools.product(('n_action', 'n_event_report'), ('ok', 'raise')):
+    for which, outcome in list(itertools.product(('n_action', 'n_event_report'), ('ok', 'raise'))) + \
+            [('n_action', 'report-peer-refuses'), ('n_action', 'report-peer-silent')]:
         ae = FakeAE()
+        if outcome.startswith('report-peer'):
+            # the delivery of the N-EVENT-REPORT fails: the N-ACTION request is answered all the same
+            def failing(remote, ae=ae, outcome=outcome):
+                class CM(object):
+                    def __enter__(s):
+                        if outcome == 'report-peer-refuses':
+                            raise exceptions.AssociationRejectedError(1, 1, 1)
+                        sub = FakeAsce(ae)
+
+                        def never(*a, **k):
+                            raise exceptions.DCMTimeoutError()
+                        sub.receive = never
+                        return sub
+
+                    def __exit__(s, *a):
+                        return False
+                return CM()
+            ae.request_association = failing
         if outcome == 'raise':
             ae.on_commitment_request = handler('raise')
             ae.on_commitment_response = handler('raise')
@@ -435,6 +454,9 @@ def run_commitment():
         bad = []
         try:
             sopclass.StorageCommitment()(asce, c, req)
+        except (exceptions.AssociationRejectedError, exceptions.DCMTimeoutError) as e:
+            if not outcome.startswith('report-peer'):
+                bad.append('noexc: %r' % e)
         except Exception as e:   # noqa
             bad.append('noexc: %r' % e)
         if len(asce.sent) < 1:
